@@ -4,6 +4,7 @@ from ..sym import Engine, Int, Bool, Struct, Enum, SymEnum, Ref, Opq, Flt, St, c
 from ..lin import Lin
 from ..dur import DurCtx, describe_path
 from .. import oracle, cfg
+from .. import cfg
 from .c02 import ctx, no_bad_events, UNIT_FACTORS
 from .c20 import rec_hook, recs
 
@@ -195,8 +196,136 @@ def panic_free(chk, F):
     chk.ob(rule, "Duration::compose_f64", "sum-of-the-seven-unit-conversions-in-order", ok, "call sequence", detail=None if ok else names)
 
 
+ROUNDERS = ("floor", "round", "trunc", "ceil")
+
+
+def integer_certification(chk, F):
+    """Duration * f64 scales the factor by powers of ten until it is `integral`, converts it to an integer and divides back.
+    R4: the integer used must be the integer the integrality test certified (same rounding function on both sides: a test
+    against floor() followed by a truncating `as` cast picks the wrong neighbour for negative values).  R5: an absolute
+    tolerance t in that test lets a non-integral value v with |v - int| < t through; the result is then off by up to
+    |duration| * t, which must stay below 1 ns for the magnitudes of the statement (10 000 years)."""
+    fn = F.find1(self_ty="Duration", name="mul", trait_ref="Mul<f64>")
+    inst = "<Duration as Mul<f64>>::mul"
+    defs = cfg.unique_defs(fn)
+    calls = {t["dest"]["l"]: (bi, t) for bi, t in cfg.calls(fn) if not t["dest"]["pj"]}
+
+    def call_of(o):
+        """(callee short name, args) if the operand is (a copy of) a call result"""
+        r = cfg.resolve(fn, o, defs)
+        p = cfg.operand_place(o)
+        for _ in range(8):
+            if p is None or p["pj"]:
+                return None
+            if p["l"] in calls:
+                t = calls[p["l"]][1]
+                return cfg.callee_name(t["f"]).split("::")[-1], t["args"]
+            d = defs.get(p["l"])
+            if d is None or d["op"] != "use":
+                return None
+            p = cfg.operand_place(d["x"])
+        return None
+
+    def base_local(o):
+        """the source variable an operand is a copy of: follow copies to a local with several definitions (a loop variable)"""
+        p = cfg.operand_place(o)
+        for _ in range(8):
+            if p is None or p["pj"]:
+                return None
+            d = defs.get(p["l"])
+            if d is None or d["op"] != "use":
+                return p["l"]
+            p = cfg.operand_place(d["x"])
+        return None
+    # conversions float -> i128
+    convs = []
+    for bi, si, st in cfg.stmts(fn):
+        if st["k"] == "a" and st["r"]["op"] == "cast" and st["r"]["ck"] == "FloatToInt":
+            c = call_of(st["r"]["x"])
+            if c is not None and c[0] in ROUNDERS:
+                convs.append((c[0], base_local(c[1][0])))
+            else:
+                convs.append(("trunc", base_local(st["r"]["x"])))  # `as` truncates toward zero
+    # integrality tests: |f(X) - X| < tolerance   or   f(X) == X
+    tests = []
+    for bi, si, st in cfg.stmts(fn):
+        if st["k"] != "a" or st["r"]["op"] != "bin" or st["r"]["b"] not in ("Lt", "Le", "Eq"):
+            continue
+        l, r = st["r"]["l"], st["r"]["r"]
+        kr = cfg.operand_const(r)
+        if kr is not None and isinstance(kr.get("v"), dict) and "fbits" in kr["v"]:
+            import struct
+            kr = dict(kr, v=struct.unpack("<d", struct.pack("<Q", kr["v"]["fbits"]))[0])
+        rel_tol = None
+        if st["r"]["b"] in ("Lt", "Le") and kr is None:
+            # relative tolerance: c * |X|
+            d2 = cfg.resolve(fn, r, defs)
+            if d2[0] == "rv" and d2[1]["op"] == "bin" and d2[1]["b"] == "Mul":
+                for ca, cb in ((d2[1]["l"], d2[1]["r"]), (d2[1]["r"], d2[1]["l"])):
+                    kc = cfg.operand_const(ca)
+                    ab = call_of(cb)
+                    if kc is not None and isinstance(kc.get("v"), dict) and "fbits" in kc["v"] and ab is not None and ab[0] == "abs":
+                        import struct
+                        rel_tol = (struct.unpack("<d", struct.pack("<Q", kc["v"]["fbits"]))[0], base_local(ab[1][0]))
+        if rel_tol is not None:
+            a = call_of(l)
+            if a is not None and a[0] == "abs":
+                d = cfg.resolve(fn, a[1][0], defs)
+                if d[0] == "rv" and d[1]["op"] == "bin" and d[1]["b"] == "Sub":
+                    f = call_of(d[1]["l"])
+                    g = call_of(d[1]["r"])
+                    if f is not None and f[0] in ROUNDERS and base_local(f[1][0]) == base_local(d[1]["r"]) == rel_tol[1]:
+                        tests.append((f[0], base_local(f[1][0]), ("rel", rel_tol[0])))
+                    elif g is not None and g[0] in ROUNDERS and base_local(g[1][0]) == base_local(d[1]["l"]) == rel_tol[1]:
+                        tests.append((g[0], base_local(g[1][0]), ("rel", rel_tol[0])))
+            continue
+        if st["r"]["b"] in ("Lt", "Le") and kr is not None and isinstance(kr.get("v"), float):
+            a = call_of(l)
+            if a is None or a[0] != "abs":
+                continue
+            d = cfg.resolve(fn, a[1][0], defs)
+            if d[0] == "rv" and d[1]["op"] == "bin" and d[1]["b"] == "Sub":
+                f = call_of(d[1]["l"])
+                g = call_of(d[1]["r"])
+                if f is not None and f[0] in ROUNDERS and base_local(f[1][0]) == base_local(d[1]["r"]):
+                    tests.append((f[0], base_local(f[1][0]), kr["v"]))
+                elif g is not None and g[0] in ROUNDERS and base_local(g[1][0]) == base_local(d[1]["l"]):
+                    tests.append((g[0], base_local(g[1][0]), kr["v"]))
+        elif st["r"]["b"] == "Eq":
+            f, g = call_of(l), call_of(r)
+            if f is not None and f[0] in ROUNDERS and base_local(f[1][0]) == base_local(r):
+                tests.append((f[0], base_local(f[1][0]), 0.0))
+            elif g is not None and g[0] in ROUNDERS and base_local(g[1][0]) == base_local(l):
+                tests.append((g[0], base_local(g[1][0]), 0.0))
+    chk.floor("C18.R4", "float->integer conversions in Duration * f64", len(convs), 1)
+    chk.floor("C18.R4", "integrality tests in Duration * f64", len(tests), 1)
+    for cf, cv in convs:
+        rel = [t for t in tests if t[1] == cv]
+        if not rel:
+            chk.ob("C18.R4", inst, "converted-value-is-the-tested-value", False, "E5 operand flow", detail={"conversion": cf, "tests": tests})
+            continue
+        for tf, tv, tol in rel:
+            ok = tf == cf or tol == 0.0
+            chk.ob("C18.R4", inst, "integer-used==integer-certified(test:%s,conversion:%s)" % (tf, cf), ok, "rounding-function agreement",
+                   detail=None if ok else "a value within the tolerance of an integer on the side where %s() and %s() differ is converted to the wrong neighbour" % (tf, cf))
+            max_total = 10_000 * 365.25 * 86400e9  # 10 000 years in ns (statement's quantifier)
+            if isinstance(tol, tuple):
+                # relative tolerance r: the integer differs from the value by at most r*|value|, i.e. the product is off by a relative
+                # r - the float rounding the statement allows as long as r is of the order of the machine epsilon
+                ok5 = tol[1] <= 2 * 2.220446049250313e-16
+                chk.ob("C18.R5", inst, "integrality-tolerance-relative<=2eps", ok5, "error bound (relative tolerance %g)" % tol[1],
+                       detail=None if ok5 else {"relative_tolerance": tol[1]})
+                continue
+            err = max_total * tol
+            ok5 = err <= 1.0
+            chk.ob("C18.R5", inst, "integrality-tolerance*|duration|<=1ns", ok5, "error bound (tolerance %g x %.3g ns)" % (tol, max_total),
+                   detail=None if ok5 else {"tolerance": tol, "error_bound_ns": err,
+                                            "meaning": "a factor smaller than the tolerance is certified as the integer 0: the product is lost"})
+
+
 def run(chk, F, tier):
     tables(chk, F)
+    integer_certification(chk, F)
     unit_f64(chk, F)
     panic_free(chk, F)
     eng, D = ctx(F)
